@@ -251,9 +251,10 @@ def run(ctx: Ctx) -> RuleResult:
     res.ob('%s %s' % (gm.loc(), gm.qual), '_get_match returns the text matched at the start', ok)
     if not ok:
         res.finding(gm, gm.node, '_get_match changed', construct='get-match')
-    emb = [n for n in cuf.body_nodes() if isinstance(n, ast.If) and isinstance(n.test, ast.Compare) and isinstance(n.test.ops[0], ast.LtE)
-           and norm(n.test.left).endswith('.pattern.flags') and norm(n.test.comparators[0]).endswith('.pattern.flags')]
-    ok = len(emb) == 1 and 'strtok' in norm(emb[0].test.left) and 'retok' in norm(emb[0].test.comparators[0]) \
+    from ..exprs import as_less
+    emb = [n for n in cuf.body_nodes() if isinstance(n, ast.If) and as_less(n.test) is not None and as_less(n.test)[1] == '<='
+           and norm(as_less(n.test)[0]).endswith('.pattern.flags') and norm(as_less(n.test)[2]).endswith('.pattern.flags')]
+    ok = len(emb) == 1 and 'strtok' in norm(as_less(emb[0].test)[0]) and 'retok' in norm(as_less(emb[0].test)[2]) \
         and any(isinstance(x, ast.Call) and norm(x.func) == 'embedded_strs.add' for x in ast.walk(emb[0]))
     res.ob('%s %s' % (cuf.loc(), cuf.qual), 'the string terminal is dropped from the scanner only when its flags are a subset of the regexp\'s', ok)
     if not ok:
